@@ -26,7 +26,8 @@ EXHAUSTIVE_PART = "every model state (79 per property x 9 object/property pairs;
 ASSUMPTIONS = ["vmon/ref/dictmodel.py states the attribute/alias rule"]
 MONITORS = ["bfs_step", "smchart_step", "random_step"]
 REQUIRED = ["both_spellings_present", "alias_only", "standard_empty_alias_set", "delete_absent", "pseudo_alias_not_honoured",
-            "smchart_refused_op", "same_pairs_in_another_insertion_order", "smchart_field_assigned_a_value_with_blanks_around_it"]
+            "smchart_refused_op", "same_pairs_in_another_insertion_order", "smchart_field_assigned_a_value_with_blanks_around_it",
+            "value_with_carriage_return_or_long_with_backslash_only"]
 
 # (object kind, attribute, second key).  Where the second key is an alias only for *another* class it must be inert.
 TARGETS = [
@@ -70,6 +71,10 @@ def cases(ctx):
         if ctx.mine(i):
             yield {"kind": "smchart", "state": list(vals)}
         i += 1
+    if ctx.mine(i):
+        # an ordinary long chart: the whole NOTES parameter is several thousand characters
+        yield {"kind": "smchart", "state": ["dance-single", "x", "Hard", "9", "0,0", "0000\n0001\n" * 400 + "0000"]}
+    i += 1
     ctx.exhaustive = True
     n = ctx.split(1500 if ctx.tier == "quick" else 16 * 5000)
     for _ in range(n):
@@ -289,7 +294,7 @@ def check_smchart(ctx, case):
             ctx.violation(f"smchart:{label}", dict(extra, problems=repr(probs)[:600]))
 
     for i, (a, k) in enumerate(zip(attrs, M.SIX)):
-        for v in VALUES + ["y z", " padded", "12\n", "\tx ", "  "]:
+        for v in VALUES + ["y z", " padded", "12\n", "\tx ", "  ", "AC\\DC", "a\r\nb", "lone\rcr"]:
             if v != v.strip():
                 ctx.feat("smchart_field_assigned_a_value_with_blanks_around_it")
             for how in ("attr", "key"):
@@ -337,14 +342,21 @@ def check_random(ctx, case):
     m = M.Mapping(kind)
     attrs = M.ATTRS[kind]
     alias_keys = ["FREEZES", "ANIMATIONS", "NOTES2"]
+    HARD = ["a\r\nb", "lone\rcr", "AC\\DC", "bg\\clip.avi " + "y" * 2100, "x" * 2050 + "\\", "two\nlines\r\n"]
     for step in range(200):
         a = rng.choice(attrs) if rng.random() < 0.6 else rng.choice(["stops", "notes"] if kind == "sscchart" else ["stops", "bgchanges"])
         r = rng.random()
         if r < 0.45:
             key = rng.choice([a.upper(), rng.choice(alias_keys), UNRELATED, rng.choice(attrs).upper()])
-            op = rng.choice([("setkey", key, rng.choice(VALUES + ["v%d" % step])), ("delkey", key), ("getkey", key), ("in", key)])
+            op = rng.choice([("setkey", key, rng.choice(VALUES + ["v%d" % step] + HARD)), ("delkey", key), ("getkey", key), ("in", key)])
         else:
-            op = rng.choice([("setattr", rng.choice(VALUES + ["v%d" % step])), ("delattr",), ("getattr",), ("iter",), ("len",)])
+            op = rng.choice([("setattr", rng.choice(VALUES + ["v%d" % step] + HARD)), ("delattr",), ("getattr",), ("iter",), ("len",)])
+        if len(op) > 1 and op[-1] in HARD:
+            ctx.feat("value_with_carriage_return_or_long_with_backslash_only")
+        if step % 50 == 49:
+            # the views and the serialization are compared at several points of the history, not only at its end
+            if not compare_views(ctx, obj, m, "stops", ["STOPS", "FREEZES", UNRELATED], f"random:{kind}:step{step}", {"object": kind, "seed": case["seed"]}):
+                return
         ctx.mon("random_step")
         want = do(m, op, a, True)
         got = do(obj, op, a, False)
